@@ -553,8 +553,8 @@ def probe_protocol(env, only: Optional[str] = None) -> Tuple[List[dict], Dict[st
     view, raw0 = env["view"], env["rawdump"]
     viol: List[dict] = []
     stats = {"names": 0, "refused": 0, "probed_calls": 0, "unreviewed": []}
-    groups = sorted(n for n, e in view.items() if e[0] == "G" and n != "/")
-    nodes = sorted(n for n in view if n != "/")
+    groups = sorted(n for n, e in view.items() if e[0] == "G" and n != "/" and not reserved(n))
+    nodes = sorted(n for n in view if n != "/" and not reserved(n))
     objs = [("container", "/")] + ([("group", groups[0])] if groups else [])
     forms = reserved_forms(view, raw0)
     u_exist = nodes[0] if nodes else None
